@@ -36,7 +36,7 @@ pub fn amount(r: &mut Rng) -> u64 {
 }
 /// a batch of leaf statements: mostly compatible, with occasional conflicts
 pub fn gen_leaves(r: &mut Rng, n: usize, u: &Universe) -> (Vec<Leaf>, String) {
-    let conflict = r.below(10);
+    let conflict = r.below(12);
     let asset = if r.chance(1, 4) { r.below(5) } else { 0 };
     let fee = *r.pick(&[0u64, 10, 10000]);
     let blk = r.below(u.blocks.len() as u64) as usize;
@@ -129,6 +129,16 @@ pub fn gen_leaves(r: &mut Rng, n: usize, u: &Universe) -> (Vec<Leaf>, String) {
                 l[3] = fee;
             }
             tag = "all-real".into();
+        }
+        8 | 9 => {
+            // real slots share the block HASH but carry different block NUMBERS (the wrapper does not compare numbers; over
+            // free child public inputs this is reachable): the header must show the FIRST real slot's number
+            for (q, l) in leaves.iter_mut().enumerate() {
+                if l[16..20] != [0u64; 4] {
+                    l[20] = 1000 + q as u64;
+                }
+            }
+            tag = "real-slots-with-different-block-numbers(not checked)".into();
         }
         _ => {}
     }
